@@ -4,18 +4,39 @@ package main
 // by later blocks, by pending transactions and by deletions or re-creations of the key after B" -
 // also for a reader that is not synchronised with the node's writers (RPC queries, the consensus'
 // own readers run beside block processing). One chain (no reorganisation: every applied block stays
-// on the main chain) is applied block by block through the engine's Walk / own-block paths, with
-// pending writes, deletes and re-creations of the same keys admitted in between (every Walk rolls
-// them back and re-admits them); reader goroutines keep reading snapshots of already applied
-// blocks and compare with the recorded answers. Storage-latency jitter widens the windows between
-// the look-ups of one read. A read that returns an ERROR is counted, not judged (failing is not
-// answering); a read that ANSWERS must answer what the live reader answered at B.
+// on the main chain) is applied block by block through the engine's paths, with pending writes,
+// deletes and re-creations of the same keys admitted in between (every Walk rolls them back and
+// re-admits them):
+//   - the deepest chain of a generated tree as blocks of a peer (ledger confirm + Play, ledger
+//     confirm + Walk, the engine's receive path Miner.ProcBlock);
+//   - then blocks the node produces itself from its pool - i.e. from exactly those pending
+//     overwrites / deletes / re-creations of the keys being read - with the engine's real miner
+//     (packBlock, confirmBlockForMiner -> PlayForMiner), some of them handed back through the
+//     receive path instead (a peer's block whose transactions the node already has pending).
+//
+// Two kinds of reader goroutines run meanwhile and compare with the recorded answers:
+//   - readers of snapshots of ALREADY APPLIED blocks (and the tip reader, tolerant to the tip that
+//     moves between the harness's two observations of the applied height);
+//   - STRICT tip-by-id readers: `id := State.GetLatestBlockid()`, then reads through
+//     CreateXMSnapshotReader(id) / CreateSnapshot(id) - the sequence GetTipXMSnapshotReader /
+//     GetTipSnapshot are made of and the access-control manager and the validator election use.
+//     The expected answer is a function of the block id alone (what the live reader of a
+//     history-free node answered when that block was its tip), so nothing is tolerated: whatever
+//     block the state machine names as its tip, the snapshot at that block has to answer with that
+//     block's own writes already. These readers prefer the keys the tip block changes with respect
+//     to its parent (the reads that can tell the two apart).
+//
+// Storage-latency jitter widens the windows between the look-ups of one read and before a batch
+// becomes visible. A read that returns an ERROR is counted, not judged (failing is not answering);
+// a read that ANSWERS must answer what the live reader answered at B.
 
 import (
 	"fmt"
 	"math/rand"
 	"sync"
 	"sync/atomic"
+
+	pb "github.com/xuperchain/xupercore/bcs/ledger/xledger/xldgpb"
 
 	"verif/ev"
 	"verif/gen"
@@ -24,9 +45,53 @@ import (
 	sn "verif/simnode"
 )
 
+// chainBlock is one block of the chain applied in a round, with the recorded answers.
+type chainBlock struct {
+	idx     int // position on the chain (0 = genesis)
+	id      []byte
+	height  int64
+	own     bool // produced by the node under test itself
+	want    map[string]rec
+	changed [][2]string // keys whose recorded answer differs from the parent's
+}
+
+func universeOf(n *sn.Node) (map[string]rec, error) {
+	m := map[string]rec{}
+	rd := n.State.CreateXMReader()
+	for _, bk := range keyUniverse() {
+		vd, err := rd.Get(bk[0], []byte(bk[1]))
+		if err != nil {
+			return nil, err
+		}
+		m[bk[0]+"/"+bk[1]] = rec{val: fmt.Sprintf("%x", vd.GetPureData().GetValue()), ver: fmt.Sprintf("%x_%d", vd.GetRefTxid(), vd.GetRefOffset())}
+	}
+	return m, nil
+}
+
+func changedKeys(parent, child map[string]rec) [][2]string {
+	var out [][2]string
+	for _, bk := range keyUniverse() {
+		if k := bk[0] + "/" + bk[1]; parent[k] != child[k] {
+			out = append(out, bk)
+		}
+	}
+	return out
+}
+
+func okRes(res string) bool { return len(res) >= 2 && res[:2] == "ok" }
+
+// sigNeverWritten: a read beside block / pool processing answered "never written" for a key that has
+// been written (or deleted) as of the block read at. One signature for every kind of reader: the
+// answer comes from XModel.Get (live table, then recycle table), below all of them.
+const sigNeverWritten = "snapshot|concurrent|wrong-answer|never-written-for-a-written-key"
+
+func neverWritten(x rec) bool { return x.val == "" && (x.ver == "" || x.ver == "_0") }
+
 func concurrentReaders(r *ev.Run) {
 	rounds := r.N(12, 200)
+	ownPerRound := r.N(8, 12)
 	var reads, errs, tipReads int64
+	var strictReads, strictChanged, strictEarly, strictErrs, strictUnknown int64
 	for round := 0; round < rounds; round++ {
 		rng := rand.New(rand.NewSource(r.Seed*7919 + int64(round)))
 		o := gen.DefaultOpts()
@@ -47,20 +112,45 @@ func concurrentReaders(r *ev.Run) {
 		}
 		path := t.Path(leaf)
 		cache := map[int]map[string]rec{}
-		want := make([]map[string]rec, len(path))
+		// the chain of the round: the tree's path, then the node's own blocks (appended by the writer
+		// BEFORE the block reaches the node; readers learn about an entry through `byID` / `applied`)
+		chain := make([]atomic.Value, len(path)+ownPerRound)
+		at := func(i int) *chainBlock {
+			if v := chain[i].Load(); v != nil {
+				return v.(*chainBlock)
+			}
+			return nil
+		}
+		var byID sync.Map // string(block id) -> *chainBlock
 		ok := true
 		for i, j := range path {
-			if want[i], err = record(t, cache, j); err != nil {
+			cb := &chainBlock{idx: i, id: t.Blocks[j].ID, height: t.Blocks[j].Height}
+			if cb.want, err = record(t, cache, j); err != nil {
 				ok = false
+				break
+			}
+			if i > 0 {
+				cb.changed = changedKeys(at(i-1).want, cb.want)
+			}
+			chain[i].Store(cb)
+			byID.Store(string(cb.id), cb)
+		}
+		var s *hist.SUT
+		var shadow *sn.Node // history-free node that follows the chain: records the answers for own blocks
+		if ok {
+			if s, err = hist.NewSUT(t); err == nil {
+				shadow, err = sn.OpenOn(t.Blocks[leaf].Canon.Clone(), t.Opts.Cfg)
 			}
 		}
-		s, err := hist.NewSUT(t)
 		if err != nil || !ok {
+			if s != nil {
+				s.N.Drop()
+			}
 			t.Drop()
 			r.Inconclusive("concurrent readers: cannot set the scenario up")
 			return
 		}
-		var applied int64 = -1 // index into path of the last block the state has fully applied
+		var applied int64 = -1 // index into chain of the last block the writer has seen fully applied (its operation returned)
 		var done int32
 		var mu sync.Mutex
 		var first *hist.Problem
@@ -90,7 +180,7 @@ func concurrentReaders(r *ev.Run) {
 						continue
 					}
 					i := int(lr.Int63n(a + 1))
-					snap, err := s.N.State.CreateSnapshot(t.Blocks[path[i]].ID)
+					snap, err := s.N.State.CreateSnapshot(at(i).id)
 					if err != nil {
 						atomic.AddInt64(&errs, 1)
 						continue
@@ -105,34 +195,147 @@ func concurrentReaders(r *ev.Run) {
 							continue
 						}
 						got := rec{val: fmt.Sprintf("%x", vd.GetPureData().GetValue()), ver: fmt.Sprintf("%x_%d", vd.GetRefTxid(), vd.GetRefOffset())}
-						if got != want[i][k] {
-							fail(hist.Problem{Sig: "snapshot|concurrent|wrong-answer|past-block", Detail: fmt.Sprintf(
-								"while the node was processing blocks / pending transactions, snapshot(block %d, h=%d).Get(%s) answered %v; the live reader answered %v when that block was the tip (chain applied up to h=%d)",
-								path[i], t.Blocks[path[i]].Height, k, got, want[i][k], t.Blocks[path[a]].Height)})
+						if got != at(i).want[k] {
+							sig := "snapshot|concurrent|wrong-answer|past-block"
+							if neverWritten(got) {
+								sig = sigNeverWritten
+							}
+							fail(hist.Problem{Sig: sig, Detail: fmt.Sprintf(
+								"while the node was processing blocks / pending transactions, snapshot(chain block %d, h=%d).Get(%s) answered %v; the live reader answered %v when that block was the tip (chain applied up to h=%d)",
+								i, at(i).height, k, got, at(i).want[k], at(int(a)).height)})
 							return
 						}
 					}
 					if g == 0 {
 						// the tip reader: the tip moves meanwhile, any tip between the two observations is right
+						// (the first observation is made BEFORE the reader - which fixes its block - is obtained)
+						a0 := atomic.LoadInt64(&applied)
 						if tr, err := s.N.State.GetTipXMSnapshotReader(); err == nil {
 							bk := keys[lr.Intn(len(keys))]
-							a0 := atomic.LoadInt64(&applied)
 							raw, err := tr.Get(bk[0], []byte(bk[1]))
 							a1 := atomic.LoadInt64(&applied)
 							atomic.AddInt64(&tipReads, 1)
 							if err == nil {
 								good := false
-								for x := a0; x <= a1+1 && int(x) < len(path); x++ {
-									good = good || fmt.Sprintf("%x", raw) == want[x][bk[0]+"/"+bk[1]].val
+								for x := a0; x <= a1+1 && int(x) < len(chain) && at(int(x)) != nil; x++ {
+									good = good || fmt.Sprintf("%x", raw) == at(int(x)).want[bk[0]+"/"+bk[1]].val
 								}
 								if !good {
-									fail(hist.Problem{Sig: "snapshot|concurrent|wrong-answer|tip-reader", Detail: fmt.Sprintf(
+									sig := "snapshot|concurrent|wrong-answer|tip-reader"
+									if len(raw) == 0 {
+										sig = sigNeverWritten
+									}
+									fail(hist.Problem{Sig: sig, Detail: fmt.Sprintf(
 										"GetTipXMSnapshotReader().Get(%s/%s) answered %x while the tip moved from h=%d to h=%d; the value at those tips is %v",
-										bk[0], bk[1], raw, t.Blocks[path[a0]].Height, t.Blocks[path[a1]].Height, want[a0][bk[0]+"/"+bk[1]].val)})
+										bk[0], bk[1], raw, at(int(a0)).height, at(int(a1)).height, at(int(a0)).want[bk[0]+"/"+bk[1]].val)})
 									return
 								}
 							}
 						}
+					}
+				}
+			}(g)
+		}
+		// the strict tip-by-id readers
+		for g := 0; g < 3; g++ {
+			wg.Add(1)
+			go func(g int) {
+				defer wg.Done()
+				defer func() {
+					if p := recover(); p != nil {
+						fail(hist.Problem{Sig: "snapshot|concurrent|panic", Detail: fmt.Sprintf("a snapshot read of the state's tip block beside block processing panicked: %v", p)})
+					}
+				}()
+				lr := rand.New(rand.NewSource(r.Seed*43 + int64(round*10+g)))
+				for it := 0; atomic.LoadInt32(&done) == 0; it++ {
+					seen := atomic.LoadInt64(&applied)
+					id := s.N.State.GetLatestBlockid()
+					var get func(bk [2]string) (rec, error)
+					via := "CreateXMSnapshotReader"
+					if (it+g)%3 == 2 {
+						via = "CreateSnapshot"
+						snap, err := s.N.State.CreateSnapshot(id)
+						if err != nil {
+							atomic.AddInt64(&strictErrs, 1)
+							continue
+						}
+						get = func(bk [2]string) (rec, error) {
+							vd, err := snap.Get(bk[0], []byte(bk[1]))
+							if err != nil {
+								return rec{}, err
+							}
+							return rec{val: fmt.Sprintf("%x", vd.GetPureData().GetValue()), ver: fmt.Sprintf("%x_%d", vd.GetRefTxid(), vd.GetRefOffset())}, nil
+						}
+					} else {
+						rd, err := s.N.State.CreateXMSnapshotReader(id)
+						if err != nil {
+							atomic.AddInt64(&strictErrs, 1)
+							continue
+						}
+						get = func(bk [2]string) (rec, error) {
+							raw, err := rd.Get(bk[0], []byte(bk[1]))
+							return rec{val: fmt.Sprintf("%x", raw)}, err
+						}
+					}
+					x, known := byID.Load(string(id))
+					if !known {
+						// not a block of the round's chain: nothing recorded for it, nothing to judge
+						atomic.AddInt64(&strictUnknown, 1)
+						continue
+					}
+					cb := x.(*chainBlock)
+					for n := 0; n < 2; n++ {
+						bk := keys[lr.Intn(len(keys))]
+						byBlock := false
+						if n == 0 && len(cb.changed) > 0 {
+							bk, byBlock = cb.changed[lr.Intn(len(cb.changed))], true
+						}
+						k := bk[0] + "/" + bk[1]
+						got, err := get(bk)
+						if err != nil {
+							atomic.AddInt64(&strictErrs, 1)
+							continue
+						}
+						atomic.AddInt64(&strictReads, 1)
+						if byBlock {
+							atomic.AddInt64(&strictChanged, 1)
+						}
+						if int64(cb.idx) > seen {
+							// the state machine named this block as its tip before the operation that applies it had returned
+							atomic.AddInt64(&strictEarly, 1)
+						}
+						want := cb.want[k]
+						if via == "CreateXMSnapshotReader" {
+							want.ver = ""
+						}
+						if got == want {
+							continue
+						}
+						sig, note := "snapshot|concurrent|wrong-answer|tip-by-id|other", ""
+						asParent := false
+						if cb.idx > 0 {
+							pw := at(cb.idx - 1).want[k]
+							if via == "CreateXMSnapshotReader" {
+								pw.ver = ""
+							}
+							asParent = got == pw
+						}
+						switch fresh := int64(cb.idx) > seen; {
+						case asParent && (fresh || !neverWritten(got)):
+							sig, note = "snapshot|concurrent|wrong-answer|tip-by-id|answers-as-of-parent", " - that is the answer as of the block's PARENT"
+						case neverWritten(got):
+							sig, note = sigNeverWritten, " - i.e. never written"
+						}
+						again, aerr := get(bk)
+						kind := "a peer's block"
+						if cb.own {
+							kind = "a block the node produced itself"
+						}
+						fail(hist.Problem{Sig: sig, Detail: fmt.Sprintf(
+							"State.GetLatestBlockid() named chain block %d (h=%d, %s) as the state's tip; %s(that id).Get(%s) answered %v%s; the live reader answered %v when that block was the tip "+
+								"(the writer had seen the chain applied up to block %d when the id was obtained; the same read repeated right afterwards: %v / %v)",
+							cb.idx, cb.height, kind, via, k, got, note, want, seen, again, aerr)})
+						return
 					}
 				}
 			}(g)
@@ -149,56 +352,127 @@ func concurrentReaders(r *ev.Run) {
 					fail(hist.Problem{Sig: "snapshot|concurrent|panic", Detail: fmt.Sprintf("block processing beside snapshot readers panicked: %v", p)})
 				}
 			}()
-			for i, j := range path {
-				if atomic.LoadInt32(&done) != 0 {
-					break
-				}
-				if j != 0 {
-					var op hist.Op
-					switch {
-					case rng.Intn(3) == 0 && s.LedgerTip() == s.Tip():
-						op = s.Confirm(j)
-						if op.Result == "ok" {
-							op = s.Play(j)
-						}
-					default:
-						op = s.Confirm(j)
-						if len(op.Result) >= 2 && op.Result[:2] == "ok" {
-							op = s.Walk(j, false)
-						}
-					}
-					if len(op.Result) < 2 || op.Result[:2] != "ok" {
-						// the pool may hold what makes Play fail (recorded C03 findings): the engine's path
-						if op = s.Walk(j, false); op.Result != "ok" {
-							fail(hist.Problem{Sig: "legal-op-failed|" + op.Kind, Detail: "applying the chain failed: " + op.String()})
-							break
-						}
-					}
-				}
-				atomic.StoreInt64(&applied, int64(i))
-				// pending traffic on the same keys: writes, deletes, re-creations; then walks in place
-				// (what every received block does to the pool: roll back, re-admit)
-				for n := 0; n < 3; n++ {
+			step := 0
+			// pending traffic on the same keys: writes, deletes, re-creations; then walks in place
+			// (what every received block does to the pool: roll back, re-admit)
+			traffic := func(progs, walks int) {
+				for n := 0; n < progs; n++ {
 					bk := keys[rng.Intn(len(keys))]
 					p := &sn.ProgBuilder{}
 					switch rng.Intn(3) {
 					case 0:
 						p.Get(bk[0], []byte(bk[1])).Del(bk[0], []byte(bk[1]))
 					case 1:
-						p.Put(bk[0], []byte(bk[1]), []byte(fmt.Sprintf("p%d-%d", round, n)))
+						p.Put(bk[0], []byte(bk[1]), []byte(fmt.Sprintf("p%d-%d-%d", round, step, n)))
 					default:
-						p.Get(bk[0], []byte(bk[1])).Del(bk[0], []byte(bk[1])).Put(bk[0], []byte(bk[1]), []byte("again"))
+						p.Get(bk[0], []byte(bk[1])).Del(bk[0], []byte(bk[1])).Put(bk[0], []byte(bk[1]), []byte(fmt.Sprintf("again%d-%d", step, n)))
 					}
 					if s.SubmitProg(rng, p) == "ok" {
 						r.Count("conc.pending-kv-admitted", 1)
 					}
 				}
-				for n := 0; n < 2; n++ {
+				for n := 0; n < walks; n++ {
 					if err := s.N.Walk(s.N.StateTip(), false); err != nil {
 						fail(hist.Problem{Sig: "legal-op-failed|walk", Detail: "walk to the state's own block failed: " + err.Error()})
 					}
 					r.Count("conc.pool-rollbacks", 1)
 				}
+			}
+			for i, j := range path {
+				if atomic.LoadInt32(&done) != 0 {
+					return
+				}
+				step++
+				if j != 0 {
+					var op hist.Op
+					switch x := rng.Intn(4); {
+					case x == 0 && s.LedgerTip() == s.Tip():
+						op = s.Confirm(j)
+						if op.Result == "ok" {
+							op = s.Play(j)
+						}
+					case x == 1:
+						if op = s.Receive(j); okRes(op.Result) {
+							r.Count("conc.blocks-applied.receive-path", 1)
+						} else if !s.Confirmed[j] {
+							s.Confirm(j)
+						}
+					default:
+						op = s.Confirm(j)
+						if okRes(op.Result) {
+							op = s.Walk(j, false)
+						}
+					}
+					if !okRes(op.Result) || s.Tip() != j {
+						// the pool may hold what makes Play fail (recorded C03 findings): the engine's path
+						if op = s.Walk(j, false); op.Result != "ok" {
+							fail(hist.Problem{Sig: "legal-op-failed|" + op.Kind, Detail: "applying the chain failed: " + op.String()})
+							return
+						}
+					}
+				}
+				atomic.StoreInt64(&applied, int64(i))
+				traffic(3, 2)
+			}
+			// the node's own blocks: its pool (the pending traffic on the keys being read) becomes the block
+			last := t.Blocks[leaf]
+			ts := int64(1000000)
+			if last.Block != nil {
+				ts = last.Block.Timestamp
+			}
+			for k := 0; k < ownPerRound; k++ {
+				if atomic.LoadInt32(&done) != 0 {
+					return
+				}
+				step++
+				if k > 0 {
+					traffic(4, 1)
+				}
+				ts += 10
+				packed, err := s.N.PackBlock(sn.K(0), ts)
+				if err != nil {
+					fail(hist.Problem{Sig: "legal-op-failed|pack", Detail: "the node cannot pack a block from its own pool: " + err.Error()})
+					return
+				}
+				b := sn.WireBlock(packed)
+				// the answers as of this block, from the history-free node, BEFORE the block reaches the node under test
+				if st := shadow.Confirm(b); !st.Succ {
+					r.Count("conc.own-blocks-not-recordable", 1)
+					return
+				}
+				if err := shadow.State.Play(b.Blockid); err != nil {
+					r.Count("conc.own-blocks-not-recordable", 1)
+					return
+				}
+				idx := len(path) + k
+				cb := &chainBlock{idx: idx, id: b.Blockid, height: b.Height, own: true}
+				if cb.want, err = universeOf(shadow); err != nil {
+					r.Count("conc.own-blocks-not-recordable", 1)
+					return
+				}
+				cb.changed = changedKeys(at(idx-1).want, cb.want)
+				chain[idx].Store(cb)
+				byID.Store(string(cb.id), cb)
+				if len(cb.changed) > 0 {
+					r.Count("conc.own-blocks.changing-a-read-key", 1)
+				}
+				if rng.Intn(3) == 0 {
+					// as a peer's block whose transactions are all pending here: the engine's receive path
+					err = s.N.ProcBlock(b)
+					if err != nil || string(s.N.StateTip()) != string(b.Blockid) {
+						fail(hist.Problem{Sig: "legal-op-failed|receive", Detail: fmt.Sprintf("the engine's receive path did not apply a block made of the node's own pending transactions: %v", err)})
+						return
+					}
+					r.Count("conc.blocks-applied.receive-path", 1)
+				} else {
+					if err = s.N.ConfirmForMiner(cloneBlock(b)); err != nil || string(s.N.StateTip()) != string(b.Blockid) {
+						fail(hist.Problem{Sig: "legal-op-failed|mine", Detail: fmt.Sprintf("the miner's own-block path did not apply a block packed from the node's pool: %v", err)})
+						return
+					}
+					r.Count("conc.blocks-applied.own-block-path", 1)
+				}
+				r.Count("conc.own-blocks-applied", 1)
+				atomic.StoreInt64(&applied, int64(idx))
 			}
 		}()
 		atomic.StoreInt32(&done, 1)
@@ -207,15 +481,31 @@ func concurrentReaders(r *ev.Run) {
 		r.Case(fmt.Sprintf("concurrent-readers|%s", t.Shape()), true)
 		r.Count("conc.rounds", 1)
 		r.Count("conc.blocks-applied", int(atomic.LoadInt64(&applied))+1)
+		for i := 1; i <= int(atomic.LoadInt64(&applied)); i++ {
+			if len(at(i).changed) > 0 {
+				r.Count("conc.blocks-applied.changing-a-read-key", 1)
+			}
+		}
 		s.N.Drop()
+		shadow.Drop()
 		t.Drop()
 		if first != nil {
-			r.Violation(first.Sig, first.Detail, map[string]interface{}{"round": round, "seed": r.Seed})
-			break
+			// taint control: the round was abandoned at its first wrong answer; a recorded (open) finding
+			// does not end the search
+			if !r.Violation(first.Sig, first.Detail, map[string]interface{}{"round": round, "seed": r.Seed, "ops": s.OpLog()}) {
+				break
+			}
 		}
 	}
 	r.Count("conc.snapshot-reads", int(reads))
 	r.Count("conc.tip-reads", int(tipReads))
 	r.Count("conc.reads-that-failed(not judged)", int(errs))
-	r.Evals(int(reads + tipReads))
+	r.Count("conc.strict-tip-reads", int(strictReads))
+	r.Count("conc.strict-tip-reads.key-changed-by-the-tip-block", int(strictChanged))
+	r.Count("conc.strict-tip-reads.before-the-applying-op-returned", int(strictEarly))
+	r.Count("conc.strict-tip-reads-that-failed(not judged)", int(strictErrs))
+	r.Count("conc.strict-tip-reads.tip-not-on-the-chain(not judged)", int(strictUnknown))
+	r.Evals(int(reads + tipReads + strictReads))
 }
+
+func cloneBlock(b *pb.InternalBlock) *pb.InternalBlock { return sn.CloneBlock(b) }
